@@ -14,7 +14,14 @@ Tie and implementation oracle, re-run on every check against the CURRENT tree:
     that alters handshake bytes inside correctly re-protected packets; configuration matrix incl. versions, retry,
     resumption / 0-RTT, client certificates; loss and reordering;
   * the model's negotiate() / version choice / verdicts are compared with what the implementation did
-    (exec_c03 through the extracted driver).
+    (exec_c03 through the extracted driver);
+  * harness/props/c03_names.py: WHICH identity the certificate is validated for - configured server_name (DNS, IPv4 /
+    IPv6 literals and odd spellings, trailing dot, upper case, IDNA, None) x subjectAltName shapes (matching / other
+    DNS, wildcard, matching / other IP, IP written as dNSName, CN only) x verify_mode x cadata / cafile / capath, leaves
+    signed by a private CA made at run time so that ONLY the identity differs; own RFC 6125 / 9525 matcher as oracle;
+    verify_certificate directly, tls.Context pairs, QuicConnection pairs; tools/gen/c03_names.py re-extracts the name
+    flow (what is stored in self._server_name, what reaches the ClientHello / verify_certificate) and
+    verify_certificate's decision structure -> coq/gen/TlsNames.v, proofs/TlsNamesP.v (exec_c03vc for the tie).
 """
 import json
 import os
@@ -22,14 +29,18 @@ import random
 import time
 
 from vlib import core, corr
-from props import c03_tls, c03_quic, c03_sched
+from props import c03_tls, c03_quic, c03_sched, c03_names
 
-GENERATORS = ["c03_transcript"]
-DEPENDS = ["TlsDispatch (generated, C11)", "TlsTranscript (generated)", "TlsSymbolic", "TlsSymbolicP*", "TlsTwoParty", "TlsTwoPartyP*", "C03"]
+GENERATORS = ["c03_transcript", "c03_names"]
+DEPENDS = ["TlsDispatch (generated, C11)", "TlsTranscript (generated)", "TlsSymbolic", "TlsSymbolicP*", "TlsTwoParty", "TlsTwoPartyP*", "TlsNames (generated)", "TlsVerifyCert", "TlsNamesP", "C03"]
 TRUSTED_BASE = [
     "tools/gen/c03_transcript.py (Python-ast extraction of the update_hash / derive / check event order of every handshake "
     "handler, labels, tables, negotiate; fail closed) and tools/gen/c11_dispatch.py (dispatch table)",
-    "extraction (ExtrOcamlBasic only) + coq/extract/driver.ml for running exec_c03",
+    "tools/gen/c03_names.py (Python-ast extraction of the name flow of tls.Context - stores to self._server_name, the server_name= "
+    "arguments of ClientHello / verify_certificate / SessionTicket - and of verify_certificate's decision structure; fail closed)",
+    "extraction (ExtrOcamlBasic only) + coq/extract/driver.ml for running exec_c03 / exec_c03vc",
+    "harness/props/c03_names.py: its IP-literal parser and RFC 6125 / 9525 style matcher (the oracle for 'valid for the configured "
+    "name'), the run-time private CA (cryptography), the reading 'server_name None = no name requested: chain + dates only'",
     "harness/props/c03.py, c03_tls.py, c03_quic.py, harness/sim (virtual network, wire observer, re-protecting man in the middle)",
     "modelled, not verified: tls.Context handlers and the QUIC transport-parameter / version checks as Gallina functions over an "
     "oracle record; agreement with the code is established by the generated skeleton and on explored runs only",
@@ -45,7 +56,9 @@ ASSUMPTIONS = [
     "(HMAC / signature unforgeability, HKDF-Expand, HKDF-Extract (both arguments) and DH secrecy against the Dolev-Yao closure), "
     "secure (adversary does not know the server's certificate key and both (EC)DHE private keys, resp. the PSK)",
     "codec round trips parse(build v) = v and framed outputs (proved about the Gallina codecs in C17, here premises)",
-    "cert_ok oracle = verify_certificate (chain, validity period, host name); o_sig_verify = public_key.verify",
+    "cert_ok oracle = verify_certificate (chain, validity period, host name); o_sig_verify = public_key.verify; "
+    "identity_check_never_skipped instantiates cert_ok with verify_certificate's decision structure (model/TlsVerifyCert.v) over "
+    "oracles for the two service_identity matchers, ipaddress.ip_address, the validity dates and OpenSSL's chain verification",
     "one complete handshake message per handle_message call (reassembly exercised by the QUIC-level runs, not modelled)",
 ]
 
@@ -501,6 +514,14 @@ def model_tie(ctx, tls_stats, quic_stats):
     return st
 
 
+def _quic_suites(ctx):
+    st = c03_quic.q_run(ctx)
+    nq = c03_names.nq_run(ctx, _sub_rng(ctx, "quic-names"))
+    st["quic_names"] = nq["quic_names"]
+    st["_obs"] = list(st.get("_obs", [])) + nq["_obs"]
+    return st
+
+
 def _quic_part(ctx):
     """run the QUIC-level suites in a forked child while the parent runs the TLS-level ones (the two halves are
     independent; each has its own PRNG stream derived from the seed).  Falls back to running in-process."""
@@ -518,7 +539,7 @@ def _quic_part(ctx):
             rx.close()
             ctx.rng = _sub_rng(ctx, "quic")
             ctx.violations, ctx.known_hits = [], []
-            st = c03_quic.q_run(ctx)
+            st = _quic_suites(ctx)
             tx.send(("ok", st, ctx.violations, ctx.known_hits))
         except BaseException as e:  # noqa: BLE001
             try:
@@ -540,7 +561,7 @@ def _quic_part(ctx):
 def _quic_join(ctx, handle):
     if handle is None:
         ctx.rng = _sub_rng(ctx, "quic")
-        return c03_quic.q_run(ctx)
+        return _quic_suites(ctx)
     proc, rx = handle
     try:
         msg = rx.recv()
@@ -584,10 +605,12 @@ def run(ctx):
     adv_stats = run_adversary(ctx)
     psk_stats = run_pskconf(ctx)
     sched_stats = c03_sched.sched_suite(ctx, _sub_rng(ctx, "sched"))
+    names_stats = c03_names.n_run(ctx, _sub_rng(ctx, "names"))
     quic_stats = _quic_join(ctx, quic_handle)
     cov_extra["model_tie"] = model_tie(ctx, tls_stats, quic_stats)
+    cov_extra["model_tie_names"] = c03_names.model_tie(ctx, core, names_stats.get("_obs", []))
     seen = set()
-    for stats in (tls_stats, adv_stats, psk_stats, sched_stats, quic_stats):
+    for stats in (tls_stats, adv_stats, psk_stats, sched_stats, names_stats, quic_stats):
         for name, st in stats.items():
             if name.startswith("_") or not isinstance(st, dict):
                 continue
@@ -609,7 +632,8 @@ def run(ctx):
                 "byte (position x mask in {0x01,0x80,0xFF}) of one handshake message in one direction (QUIC: inside correctly "
                 "re-protected packets); matrix cases vary certificate key type, cipher-suite lists, ALPN lists, signature "
                 "algorithms, groups, TLS / QUIC versions, resumption / 0-RTT, retry, client-certificate request, loss / "
-                "reordering; bad-certificate cases. distinct = distinct case descriptions that were not skipped",
+                "reordering; bad-certificate cases; name matrix (configured server_name x subjectAltName shape x verify_mode x "
+                "trust source, private CA made at run time). distinct = distinct case descriptions that were not skipped",
         "samples": samples,
         "wall_impl_s": round(time.time() - t0, 1),
     }
@@ -620,6 +644,8 @@ def run(ctx):
 def replay(ctx, rep):
     case = rep["case"]
     suite = str(case.get("suite", ""))
+    if suite in c03_names.RUNNERS:
+        return c03_names.n_replay(ctx, case)
     if suite.startswith("quic"):
         return c03_quic.q_replay(ctx, case)
     if suite == "tls-sched":
